@@ -57,6 +57,61 @@ impl AsyncWrite for Scripted {
     }
 }
 
+/// An Io with a write buffer of its own (as a BufWriter, a TLS or a websocket stream has): bytes reach `written` only when the
+/// Io is flushed, and a flush needs two polls (Pending once)
+#[derive(Default)]
+pub struct BufState {
+    pub staged: Vec<u8>,
+    pub written: Vec<u8>,
+    armed: bool,
+}
+pub struct BufferedIo(pub std::sync::Arc<std::sync::Mutex<BufState>>);
+impl AsyncRead for BufferedIo {
+    fn poll_read(self: Pin<&mut Self>, _cx: &mut Context<'_>, _buf: &mut ReadBuf<'_>) -> Poll<std::io::Result<()>> {
+        Poll::Ready(Ok(()))
+    }
+}
+impl AsyncWrite for BufferedIo {
+    fn poll_write(self: Pin<&mut Self>, _cx: &mut Context<'_>, buf: &[u8]) -> Poll<std::io::Result<usize>> {
+        self.0.lock().unwrap().staged.extend_from_slice(buf);
+        Poll::Ready(Ok(buf.len()))
+    }
+    fn poll_flush(self: Pin<&mut Self>, cx: &mut Context<'_>) -> Poll<std::io::Result<()>> {
+        let mut g = self.0.lock().unwrap();
+        if g.staged.is_empty() {
+            return Poll::Ready(Ok(()));
+        }
+        if !g.armed {
+            g.armed = true;
+            cx.waker().wake_by_ref();
+            return Poll::Pending;
+        }
+        g.armed = false;
+        let st = std::mem::take(&mut g.staged);
+        g.written.extend(st);
+        Poll::Ready(Ok(()))
+    }
+    fn poll_shutdown(self: Pin<&mut Self>, cx: &mut Context<'_>) -> Poll<std::io::Result<()>> {
+        self.poll_flush(cx)
+    }
+}
+
+/// Send one frame through a real Transport over a [BufferedIo]: (bytes that had reached the wire when send() returned, bytes
+/// still staged in the Io's own buffer at that moment)
+pub fn send_frame_buffered(max_frame_size: usize, frame: Frame) -> Result<(Vec<u8>, Vec<u8>), String> {
+    rt().block_on(async move {
+        let st = std::sync::Arc::new(std::sync::Mutex::new(BufState::default()));
+        let mut t = Transport::<_, Frame>::bind(BufferedIo(st.clone()), max_frame_size, None);
+        let r = tokio::time::timeout(std::time::Duration::from_secs(5), t.send(frame)).await;
+        let g = st.lock().unwrap();
+        match r {
+            Err(_) => Err("send() did not return".to_string()),
+            Ok(Err(e)) => Err(format!("{:?}", e)),
+            Ok(Ok(())) => Ok((g.written.clone(), g.staged.clone())),
+        }
+    })
+}
+
 fn rt() -> tokio::runtime::Runtime {
     tokio::runtime::Builder::new_current_thread().enable_all().build().unwrap()
 }
@@ -241,6 +296,26 @@ pub fn run(seed: u64, n: u64, thorough: bool, corpus: &[String], dir: &str) {
             }
             Ok(Err(e)) => out.violation("c06-send-error", &format!("c06-send-error: sending a transfer failed: {}", e), &line),
             Err(_) => out.violation("c06-panic", "c06-panic: the transport panicked while sending a transfer", &line),
+        }
+        // the same transfer over an Io that buffers writes: when send() returns Ok every byte has been flushed through
+        if i % 3 == 0 {
+            if let Ok(Ok(w)) = &res {
+                let fr = Frame::new(ch, FrameBody::Transfer { performative: t.clone(), payload: Bytes::from(payload.clone()) });
+                match std::panic::catch_unwind(std::panic::AssertUnwindSafe(|| send_frame_buffered(m, fr))) {
+                    Ok(Ok((written, staged))) => {
+                        out.count("xfer_over_buffering_io");
+                        if !staged.is_empty() || &written != w {
+                            out.violation(
+                                "c06-flush-incomplete",
+                                &format!("c06-flush-incomplete: send() returned Ok over an Io with a write buffer of its own while {} of {} bytes were still in that buffer", staged.len(), w.len()),
+                                &line,
+                            );
+                        }
+                    }
+                    Ok(Err(e)) => out.violation("c06-send-error", &format!("c06-send-error: sending over a buffering Io failed: {}", e), &line),
+                    Err(_) => out.violation("c06-panic", "c06-panic: the transport panicked while sending over a buffering Io", &line),
+                }
+            }
         }
         out.case(&line, &impl_line);
     }
